@@ -8,6 +8,15 @@
      CRYPT cfg bufsiz E|D P:pw|K:keyfile files fs faults rseed
      GEN   cfg keyfile fs faults rseed
      SUM   cfg bufsiz alg H|C files fs faults
+     ARGS  cfg bufsiz fx closes E|D|N pw out inputs tty stdin fs faults rseed        main() of asconcrypt after getopt
+           fx: two digits; first 1 = the tree tests close(2) of an output descriptor (fixes/C19-close-errors.patch),
+           second 1 = a typed password of 1024 bytes or more is refused (fixes/C19-typed-password-length.patch); 00 = as it is;
+           closes: "." or k,k,... = those closes of a write descriptor report an error;  E|D|N: -e, -d, neither;
+           pw: P:hex (-p), K:hex (-k), B:hex:hex (both), T (neither: the terminal);  out: "." or O:hex (-o);
+           inputs: "." or hex,hex,...;  tty: N (not a terminal) or T:r,r,... with r = hex or NULL (getpass results);
+           stdin: hex
+     GENC  cfg cchk closes keyfile fs faults rseed                                   asconcrypt -g with the close result
+     SUMV  cfg bufsiz alg H|C files|. fs faults                                      asconsum; "." = no FILE arguments
    cfg: S (shipped) or F (fixed);  files: in:out,in:out (CRYPT) / a,b,c (SUM), names in hex;
    fs: name=content,... ("." empty file system); content is hex, empty, @blob, @blob^off:xx
    (xor xx into byte off) or @blob<n (first n bytes);
@@ -140,6 +149,8 @@ let emsg_str = function
   | ENoLines -> "no-lines" | EWarnFormat n -> Printf.sprintf "warn-format:%d" (int_of_nat n)
   | EWarnMismatch n -> Printf.sprintf "warn-mismatch:%d" (int_of_nat n)
   | EWarnRead n -> Printf.sprintf "warn-read:%d" (int_of_nat n)
+  | EUsage -> "usage" | EBothPK -> "both-p-k" | EOneInput -> "one-input" | EDirection -> "direction"
+  | ENoTerminal -> "no-terminal" | EPwMismatch -> "pw-mismatch"
 
 let raw_of_bytes (l : n list) : string =
   let b = Buffer.create 64 in List.iter (fun x -> Buffer.add_char b (Char.chr (int_of_n x))) l; Buffer.contents b
@@ -172,6 +183,8 @@ let dedup fs = List.fold_left (fun acc (p, c) -> if List.mem_assoc p acc then ac
 let world_of fs0 = world0 (List.map (fun (p, c) -> (bytes_of_raw p, bytes_of_raw c)) fs0)
 let cfg_of = function "S" -> shipped | "F" -> fixed | _ -> failwith "cfg"
 
+let close_list (s : string) : int list = if s = "." then [] else List.map int_of_string (String.split_on_char ',' s)
+
 let process (toks : string list) : string =
   match toks with
   | ["C19DEF"; name; h] -> Hashtbl.replace blobs name (raw_of_hex h); "XOK"
@@ -197,6 +210,40 @@ let process (toks : string list) : string =
     let files = List.map bytes_of_hex (String.split_on_char ',' files) in
     answer fs0 (x_main_sum h_init h_upd h_fin (nat_of_int (int_of_string bufsiz)) (cfg_of cfg) o (nat_of_int (int_of_string alg))
                   (mode = "C") (world_of fs0) files)
+  | ["ARGS"; cfg; bufsiz; fx; closes; mode; pw; out; inputs; tty; stdin; fs; faults; rseed] ->
+    let fs0 = dedup (parse_fs fs) in
+    let o = oracle_of (parse_faults faults) rseed in
+    let tail s n = String.sub s n (String.length s - n) in
+    let a_p, a_k = (match pw.[0] with
+        | 'P' -> (Some (bytes_of_hex (tail pw 2)), None)
+        | 'K' -> (None, Some (bytes_of_hex (tail pw 2)))
+        | 'B' -> (match String.split_on_char ':' pw with
+            | [_; p; k] -> (Some (bytes_of_hex p), Some (bytes_of_hex k)) | _ -> failwith "pw")
+        | 'T' -> (None, None)
+        | _ -> failwith "pw") in
+    let a = { a_mode = (match mode with "E" -> Some true | "D" -> Some false | "N" -> None | _ -> failwith "mode");
+              a_p = a_p; a_k = a_k;
+              a_o = (if out = "." then None else Some (bytes_of_hex (tail out 2)));
+              a_in = (if inputs = "." then [] else List.map bytes_of_hex (String.split_on_char ',' inputs)) } in
+    let t = (if tty = "N" then { t_tty = false; t_pass = [] }
+             else { t_tty = true;
+                    t_pass = (let r = tail tty 2 in if r = "" then [] else
+                                List.map (fun x -> if x = "NULL" then None else Some (bytes_of_hex x)) (String.split_on_char ',' r)) }) in
+    let cl = close_list closes in
+    answer fs0 (x_main_args pbkdf2 siv_enc siv_dec a_start a_encb a_encf a_decb a_decf (nat_of_int (int_of_string bufsiz))
+                  (cfg_of cfg) o { m_close = (fx.[0] = '1'); m_pwlen = (fx.[1] = '1') } (fun k -> List.mem (int_of_nat k) cl) a t
+                  (bytes_of_hex stdin) (world_of fs0))
+  | ["GENC"; cfg; cchk; closes; kf; fs; faults; rseed] ->
+    let fs0 = dedup (parse_fs fs) in
+    let o = oracle_of (parse_faults faults) rseed in
+    let cl = close_list closes in
+    answer fs0 (x_main_generate_c (cfg_of cfg) o (cchk = "1") (fun k -> List.mem (int_of_nat k) cl) (world_of fs0) (bytes_of_hex kf))
+  | ["SUMV"; cfg; bufsiz; alg; mode; files; fs; faults] ->
+    let fs0 = dedup (parse_fs fs) in
+    let o = oracle_of (parse_faults faults) "0" in
+    let files = if files = "." then [] else List.map bytes_of_hex (String.split_on_char ',' files) in
+    answer fs0 (x_main_sum_argv h_init h_upd h_fin (nat_of_int (int_of_string bufsiz)) (cfg_of cfg) o (nat_of_int (int_of_string alg))
+                  (mode = "C") (world_of fs0) files)
   | _ -> failwith "C19: bad operation"
 
-let () = List.iter (fun n -> register n process) ["C19DEF"; "CRYPT"; "GEN"; "SUM"]
+let () = List.iter (fun n -> register n process) ["C19DEF"; "CRYPT"; "GEN"; "SUM"; "ARGS"; "GENC"; "SUMV"]
